@@ -31,7 +31,7 @@ class Unit(Translator):
             if p: self.redirect[p] = n['id']
         self.assign_cnames()
 
-    def resolve_by_name(self, name, type_str=None, class_q=None, nargs=None):
+    def resolve_by_name(self, name, type_str=None, class_q=None, nargs=None, want_const=None):
         """fallback when node ids of two dumps do not line up: unique match on (class, name[, type / arity])"""
         cands = []
         for n in self.fn_nodes:
@@ -43,7 +43,27 @@ class Unit(Translator):
                 need = sum(1 for p in ps if not [c for c in p.get('inner', []) if c])
                 if not (need <= nargs <= len(ps)): continue
             if all(x['id'] != n['id'] for x in cands): cands.append(n)
+        if len(cands) > 1 and want_const is not None:
+            c2 = [n for n in cands if bool(re.search(r"\)\s*const", n['type']['qualType'])) == want_const]
+            if len(c2) == 1: return c2[0]
         return cands[0] if len(cands) == 1 else None
+
+    def decl_by_name(self, name, P, obj, is_arrow):
+        """declared-only method looked up by (class, name) when node ids of two dumps do not line up"""
+        ot = P.ty(obj)
+        if is_arrow and ot.kind == 'ptr': ot = ot.to
+        ot = ot.strip_ref()
+        if ot.kind != 'named' or self.category(ot) != 'record': return None
+        if not hasattr(self, '_method_decl_index'):
+            idx = {}
+            for d in self.decl.values():
+                if d.get('kind') == 'CXXMethodDecl' and d.get('name'):
+                    par = self.parent.get(d['id'])
+                    q = self.qname_of.get(par['id']) if par else None
+                    if q: idx.setdefault((q, d['name']), []).append(d)
+            self._method_decl_index = idx
+        c = self._method_decl_index.get((ot.name, name), [])
+        return c[0] if len(c) == 1 else None
 
     def resolve_fn(self, fid):
         seen = 0
@@ -113,7 +133,7 @@ class Unit(Translator):
             if is_arrow and ot0.kind == 'ptr': ot0 = ot0.to
             ot0 = ot0.strip_ref()
             if ot0.kind == 'named' and self.category(ot0) == 'record':
-                callee = self.resolve_by_name(mexpr['name'], class_q=ot0.name, nargs=len(args))
+                callee = self.resolve_by_name(mexpr['name'], class_q=ot0.name, nargs=len(args), want_const=bool(ot0.const))
         if callee is not None and self.is_translatable(callee):
             if callee.get('virtual') and not self.opts.get('devirtualize_all'):
                 return self.virtual_call(P, n, callee, obj, is_arrow, args)
@@ -124,10 +144,13 @@ class Unit(Translator):
             if cn in self.throwing_fns or self.opts.get('all_calls_may_throw'): P.note_throw()
             return self._wrap_ret(callee, '%s(%s)' % (cn, ', '.join(a)))
         md = self.decl.get(mid) if mid else None
-        if callee is None and md is not None and md.get('kind') == 'CXXMethodDecl' and (md.get('virtual') or md.get('pure')):
-            # declared-only virtual method (pure virtual): bodiless dispatcher that must get a contract from the spec
+        if callee is None and md is None and mid:
+            md = self.decl_by_name(mexpr['name'], P, obj, is_arrow)
+        if callee is None and md is not None and md.get('kind') == 'CXXMethodDecl' and self.is_translatable(md):
+            # declared-only method: pure virtual (bodiless dispatcher) or defined in another translation unit (extern);
+            # either way a bodiless function that must get a contract from the spec
             q = self.fn_qname(md)
-            disp = 'dispatch_' + sanitize(short_ns(q))
+            disp = ('dispatch_' if (md.get('virtual') or md.get('pure')) else 'extern_') + sanitize(short_ns(q))
             self.virtual_dispatch[disp] = md
             self.proto_only[disp] = md
             this = P.ex(obj) if is_arrow else P.addr(obj)
@@ -172,6 +195,13 @@ class Unit(Translator):
             if not self.record_trivially_copyable(q):
                 self.dropped.add('implicit copy assignment of %s is a shallow struct copy in the C model' % q)
             return '(%s = %s)' % (P.ex(args[0]), P.ex(args[1]))
+        if callee is None and r.get('name') == 'operator=' and len(args) == 2 and self.category(P.ty(args[0])) == 'record':
+            q = P.ty(args[0]).strip_ref().name
+            user = [f for f in self.fn_nodes if f.get('name') == 'operator=' and self.fn_class_qname(f) == q and not f.get('isImplicit')]
+            if not user:
+                if not self.record_trivially_copyable(q):
+                    self.dropped.add('implicit copy assignment of %s is a shallow struct copy in the C model' % q)
+                return '(%s = %s)' % (P.ex(args[0]), P.ex(args[1]))
         if callee is not None and self.is_translatable(callee):
             cn = self._callee_cname(P, callee)
             if self.fn_is_method(callee):
@@ -203,6 +233,10 @@ class Unit(Translator):
         if len(args) == 1 and n.get('elidable'):
             return P.ex(args[0])
         args = [a for a in args if a.get('kind') != 'CXXDefaultArgExpr']
+        if cat in ('opaque', 'unknown') and self.opts.get('unknown_types_opaque'):
+            self.dropped.add('construction of opaque type %s: the object is unconstrained and the constructor arguments are not evaluated' % t.strip_ref().name)
+            tmp = P.new_temp(lambda nm: self.decl_text_t(t.strip_ref(), nm))
+            return tmp
         return self.lib.construct(P, n, t, cat, args)
 
     def find_ctor(self, P, n, t, args):
@@ -432,7 +466,13 @@ class Unit(Translator):
         if init:
             try:
                 P = FnPrinter(self, {'kind': 'FunctionDecl', 'id': '0x0'}, '__global_init')
-                text = '%s = %s' % (decl, P.ex(init[-1]))
+                ie = P.ex(init[-1])
+                if t.const and t.kind == 'named' and self.category(t) in ('scalar', 'enum') and not P.temps:
+                    # constant of scalar type: a macro, so that no analysis can treat it as mutable state
+                    text = '#define %s ((%s)%s)' % (name, self.ctype_t(t), ie)
+                    self.globals[gid] = (name, text, d)
+                    return name
+                text = '%s = %s' % (decl, ie)
             except Unsupported:
                 text = decl + ' /* initialiser not translated */'
         self.globals[gid] = (name, text, d)
@@ -491,18 +531,25 @@ class Unit(Translator):
             elif macro == 'OPT_DECL':
                 funcs_later.append('OPT_T(%s, %s)' % (key[1], key[2]))
                 funcs_later.append('OPT_F(%s, %s)' % (key[1], key[2]))
+            elif macro == 'UMAP_DECL':
+                funcs_later.append('UMAP_T(%s, %s)' % (key[1], key[2]))
+                funcs_later.append('UMAP_F(%s, %s)' % (key[1], key[2]))
+                funcs_later.append('struct umap_%s_pair g_umap_other_%s;' % (key[2], key[2]))
         # OPT types embedding records by value: emit record defs, then OPT; records embedding OPT need order.
         out += types_first
         out += self._order_records_and_opts(body, funcs_later)
         for gid, (name, text, d) in self.globals.items():
-            out.append(text + ';')
+            out.append(text if text.startswith('#define') else text + ';')
         out += protos
         for (cname, sig, contract) in stubs:
             out.append(sig)
             for l in contract: out.append('  ' + l)
             out.append(';')
+        # helpers generated by the library table (e.g. find_if loops) need the lambdas' prototypes, which are above
+        helper_pos = len(out)
         for cname, text in self.fn_text.items():
             out.append(text)
+        out[helper_pos:helper_pos] = self.generated_helpers
         out.append(harness_text)
         return '\n'.join(out) + '\n'
 
@@ -510,13 +557,13 @@ class Unit(Translator):
         """records (already dependency ordered among themselves) and OPT_T: place each OPT_T(T,M) right after the
         record it wraps if that is a record, otherwise first."""
         res = []
-        opt_t = [f for f in funcs_later if f.startswith('OPT_T(')]
-        rest = [f for f in funcs_later if not f.startswith('OPT_T(')]
+        opt_t = [f for f in funcs_later if f.startswith(('OPT_T(', 'UMAP_T('))]
+        rest = [f for f in funcs_later if not f.startswith(('OPT_T(', 'UMAP_T('))]
         placed = set()
         def place_ready(defined_text):
             for f in opt_t:
                 if f in placed: continue
-                inner = f[len('OPT_T('):].split(',')[0].strip()
+                inner = f[f.index('(') + 1:].split(',')[0].strip()
                 m = re.match(r"struct (\w+)$", inner)
                 if m is None or ('struct %s {' % m.group(1)) in defined_text:
                     res.append(f); placed.add(f)
